@@ -61,9 +61,10 @@ package goja
 //@   props C13
 //@   requires o != nil && idx >= 0
 
+// (called by the sort algorithm with indices computed before the comparator ran: any non-negative index)
 //@ func (*objectGoSlice).swap bounds
 //@   props C13
-//@   requires o != nil && 0 <= i && i < len(*o.data) && 0 <= j && j < len(*o.data)
+//@   requires o != nil && 0 <= i && 0 <= j
 
 // Assumed: formatting a number reads its argument only.
 //@ extern strconv.Itoa
